@@ -30,6 +30,20 @@ For each function `f` it emits
 C semantics made explicit: signed `/ %` -> `Int.tdiv/tmod`; unsigned `/ %` -> `/ %` on non-negative
 values; every conversion to an unsigned type -> `% 2^w`; signed conversion -> two's complement wrap.
 Anything outside the subset raises `Unsupported` naming the AST node: a broken obligation, never a fallback.
+
+v3 (job sets C14 BITS_JOBS and C12 DURCAST_JOBS; the older job sets do not reach any of it): shifts and bit operators
+(`<< >> & | ^ ~`: Tetl/CSemBits.lean; every shift adds the obligation `shiftOk <width of the promoted left operand> <count>`
+to `_ub`; on an unsigned result type the bit operators act on the non-negative values, on a signed one through the two's
+complement representation), `if (init; cond)`, `;`, `sizeof`, `bool` parameters, calls that return `bool`,
+`__builtin_add_overflow(a, b, &r)` (documented semantics, CSemBits.addOverflowVal / addOverflowFlag: `r` is re-bound),
+references to `static constexpr` data members / variables (folded by `const_eval` from their initialisers in the same AST),
+"whole TU" mode (`translate(..., whole_tu=True)`: ONE clang run without `-ast-dump-filter`, so declaration ids are
+comparable across jobs; candidates are found by qualified name exactly as clang's filter does), `externs` (functions that
+stay hand-modelled — loops — are called through a Lean name declared in the prelude of the generated file),
+specializations selected by several template arguments (`targs_are`), the job kind "MemberSpec m" (a specialization of the
+member function template `m` of a class template specialization), `symbolic` static data members (left as Lean parameters
+of the generated function: `CF::num`, `CF::den` of DURCAST_JOBS) and `rep_classes` (`duration<Rep, Period>` is a one-field
+class over its own `Rep`; its constructor from a number is the conversion to `Rep`).
 """
 import json
 import os
@@ -39,6 +53,7 @@ import sys
 
 CLANG = os.environ.get("VERIF_CLANG", "clang++-16")
 VERSION = "translate.py v2"
+VERSION3 = "translate.py v3"
 
 INT_TYPES = {
     "bool": (1, False), "char": (8, True), "signed char": (8, True), "unsigned char": (8, False),
@@ -140,6 +155,10 @@ class Fn:
         self.tables = {}
         self.vtypes = {}      # Lean type of a tuple-valued local (everything else is passed as Int)
         self.fields = {}      # Functor jobs: field name -> True once bound (MemberExpr on `this` = the binding)
+        self.consts = {}      # v3: id -> VarDecl of every variable of the translation unit (whole-TU mode): constant folding
+        self.symbolic = {}    # v3: name of a static data member -> Lean parameter that stands for it (DURCAST_JOBS: num, den)
+        self.extra_params = []
+        self.rep_classes = False      # v3: `duration<Rep, Period>` is a one-field class over ITS OWN Rep (C12), not over int
 
     def guarded(self, cond, fcond, thunk, negate=False):
         """translate a sub-tree that is evaluated only when `cond` holds (or fails): its UB obligations are guarded"""
@@ -157,6 +176,11 @@ class Fn:
         if q in INT_TYPES:
             return INT_TYPES[q]
         s = short(q)
+        if self.rep_classes and s == "duration":
+            m = re.match(r"(?:etl::)?(?:chrono::)?duration<([^,<>]+)[,>]", q)      # `duration<short>`: period ratio<1> elided
+            if not m or m.group(1).strip() not in INT_TYPES:
+                raise Unsupported("duration type " + q)
+            return INT_TYPES[m.group(1).strip()]
         if s in CLASSES:
             return INT_TYPES[CLASSES[s]]
         raise Unsupported("type " + q)
@@ -192,6 +216,16 @@ class Fn:
             return ("true" if n["value"] else "false", set(), True)
         if k == "DeclRefExpr":
             nm = n["referencedDecl"]["name"]
+            if nm not in self.env and nm in self.symbolic and n["referencedDecl"].get("id") in self.consts:
+                pn = self.symbolic[nm]
+                if pn not in self.extra_params:
+                    self.extra_params.append(pn)
+                return (pn, {pn}, False)
+            if nm not in self.env and n["referencedDecl"].get("id") in self.consts:
+                v = self.const_eval(n)
+                if norm(qtype(n)) == "bool":
+                    return ("true" if v else "false", set(), True)
+                return ("(%d : Int)" % v, set(), False)
             if nm not in self.env:
                 raise Unsupported("free variable " + nm)
             e, fv, b = self.env[nm]
@@ -241,7 +275,12 @@ class Fn:
                 return ("(!%s)" % e, fv, True)
             if op == "+":
                 return (e, fv, b)
+            if op == "~":
+                bits, signed = self.ity(qtype(n))
+                return ("(bnotS %s)" % e if signed else "(bnotU %d %s)" % (bits, e), fv, False)
             raise Unsupported("unary " + op)
+        if k == "UnaryExprOrTypeTraitExpr" and n.get("name") == "sizeof" and "argType" in n:
+            return ("(%d : Int)" % self.sizeof(n), set(), False)
         if k == "BinaryOperator":
             return self.binop(n["opcode"], n, inner[0], inner[1])
         if k == "ConditionalOperator":
@@ -268,13 +307,17 @@ class Fn:
                 bits, signed = self.ity(qtype(n))
                 lo, hi = (-(2 ** (bits - 1)), 2 ** (bits - 1) - 1) if signed else (0, 2 ** bits - 1)
                 return ("(%d : Int)" % (lo if nm == "min" else hi), set(), False)
+            if nm == "__builtin_add_overflow" and len(inner) == 4:
+                return self.builtin_add_overflow(inner[1], inner[2], inner[3])
             ln = self.reg.get("fn:%s(%s)" % (nm, ",".join(norm(qtype(a)) for a in inner[1:]))) or self.reg.get("fn:" + nm)
+            if ln is None and callee.get("referencedDecl", {}).get("id") in self.reg.fns.get("#ids", {}):
+                ln = self.reg.fns["#ids"][callee["referencedDecl"]["id"]]      # v3: the callee's own declaration (overloads / specializations)
             if ln is not None:
                 parts = [self.ex(a) for a in inner[1:]]
                 fvs = set().union(*[p[1] for p in parts]) if parts else set()
                 argl = " ".join(p[0] for p in parts)
                 self.ub.append(("(%s_ub %s)" % (ln, argl), fvs))
-                return ("(%s %s)" % (ln, argl), fvs, False)
+                return ("(%s %s)" % (ln, argl), fvs, norm(qtype(n)) == "bool")
             raise Unsupported("call to untranslated function " + nm)
         if k == "CXXMemberCallExpr":
             callee = inner[0]
@@ -343,6 +386,10 @@ class Fn:
                 if short(qtype(src)) == cls:          # copy/move construction
                     return self.ex(src)
                 e, fv, b = self.ex(src)
+                if self.rep_classes and cls == "duration":
+                    # `duration(Rep2 const& r) : _rep(static_cast<rep>(r))` (duration.hpp; trusted like CSem.mkDur, which is
+                    # this constructor for rep = int_least32_t): the conversion to the constructed type's own rep
+                    return (self.conv(qtype(n), "(if %s then 1 else 0)" % e if b else e), fv, False)
                 ctor = self.reg.get("ctor:" + cls) or ("mkDur" if CLASSES[cls] == "int" else None)
                 if ctor is None:
                     raise Unsupported("constructor of " + cls + " not translated")
@@ -359,6 +406,94 @@ class Fn:
                 return self.ex(inner[0])
             raise Unsupported("construct " + qtype(n))
         raise Unsupported(k)
+
+    # ---------------- v3: constants of the translation unit, sizeof, builtins
+    def sizeof(self, n):
+        q = norm(n["argType"].get("desugaredQualType") or n["argType"].get("qualType") or "")
+        if q not in INT_TYPES or q == "bool":
+            raise Unsupported("sizeof " + q)
+        return INT_TYPES[q][0] // 8
+
+    def const_eval(self, n, depth=0):
+        """value (Python int) of a constant expression over literals, sizeof, casts between integer types, + - * / % and
+        other `constexpr` variables of the same translation unit (looked up by declaration id)"""
+        if depth > 40:
+            raise Unsupported("constant too deep")
+        k, inner = n["kind"], n.get("inner", [])
+        if k in ("ParenExpr", "ConstantExpr", "ExprWithCleanups") :
+            if k == "ConstantExpr" and "value" in n and norm(qtype(n)) in INT_TYPES:
+                return int(n["value"]) if n["value"] not in ("true", "false") else int(n["value"] == "true")
+            return self.const_eval(inner[0], depth + 1)
+        if k in ("IntegerLiteral", "CharacterLiteral"):
+            return int(n["value"])
+        if k == "CXXBoolLiteralExpr":
+            return 1 if n["value"] else 0
+        if k == "UnaryExprOrTypeTraitExpr" and n.get("name") == "sizeof" and "argType" in n:
+            return self.sizeof(n)
+        if k == "DeclRefExpr":
+            d = self.consts.get(n["referencedDecl"].get("id"))
+            if d is None or not d.get("constexpr") or not d.get("inner"):
+                raise Unsupported("constant " + n["referencedDecl"].get("name", "?"))
+            init = [c for c in d["inner"] if c["kind"] not in ("FullComment",) and not c["kind"].endswith("Attr")]
+            return self.wrap_py(qtype(d), self.const_eval(init[0], depth + 1))
+        if k in ("ImplicitCastExpr", "CXXStaticCastExpr", "CStyleCastExpr", "CXXFunctionalCastExpr"):
+            v = self.const_eval(inner[0], depth + 1)
+            ck = n.get("castKind", "")
+            if ck in ("LValueToRValue", "NoOp"):
+                return v
+            if ck == "IntegralCast":
+                return self.wrap_py(qtype(n), v)
+            if ck == "IntegralToBoolean":
+                return int(v != 0)
+            raise Unsupported("constant cast " + ck)
+        if k == "UnaryOperator" and n["opcode"] in ("-", "+"):
+            v = self.const_eval(inner[0], depth + 1)
+            return self.checked_py(qtype(n), -v if n["opcode"] == "-" else v)
+        if k == "BinaryOperator" and n["opcode"] in ("+", "-", "*", "/", "%"):
+            a, b = self.const_eval(inner[0], depth + 1), self.const_eval(inner[1], depth + 1)
+            op = n["opcode"]
+            if op in ("/", "%"):
+                if b == 0:
+                    raise Unsupported("constant division by zero")
+                q = abs(a) // abs(b) * (1 if (a < 0) == (b < 0) else -1)
+                return self.checked_py(qtype(n), q if op == "/" else a - q * b)
+            return self.checked_py(qtype(n), a + b if op == "+" else a - b if op == "-" else a * b)
+        raise Unsupported("constant expression " + k)
+
+    def wrap_py(self, q, v):
+        if norm(q) == "bool":
+            return int(v != 0)
+        bits, signed = self.ity(q)
+        return (v + 2 ** (bits - 1)) % 2 ** bits - 2 ** (bits - 1) if signed else v % 2 ** bits
+
+    def checked_py(self, q, v):
+        bits, signed = self.ity(q)
+        if not signed:
+            return v % 2 ** bits
+        if not -(2 ** (bits - 1)) <= v < 2 ** (bits - 1):
+            raise Unsupported("constant overflows")      # a constant expression cannot overflow: the TU would not compile
+        return v
+
+    def builtin_add_overflow(self, a, b, out):
+        """`__builtin_add_overflow(a, b, &r)` (GCC manual, "Built-in Functions to Perform Arithmetic with Overflow Checking"):
+        the operands are taken at infinite precision, the sum is stored into `*r` converted to r's type, the result is
+        true iff the stored value differs from the exact sum.  `r` must be a local of the function: it is re-bound."""
+        while out["kind"] in ("ParenExpr", "ImplicitCastExpr"):
+            out = out["inner"][0]
+        if out["kind"] != "UnaryOperator" or out.get("opcode") != "&" or out["inner"][0]["kind"] != "DeclRefExpr":
+            raise Unsupported("__builtin_add_overflow result argument")
+        tgt = out["inner"][0]
+        nm = tgt["referencedDecl"]["name"]
+        if nm not in self.env or nm not in self.counter:
+            raise Unsupported("__builtin_add_overflow into a non-local")
+        bits, signed = self.ity(qtype(tgt))
+        ea, fa, ba = self.ex(a)
+        eb, fb, bb = self.ex(b)
+        if ba or bb:
+            raise Unsupported("__builtin_add_overflow on bool")
+        sg = "true" if signed else "false"
+        self.bind(nm, "(addOverflowVal %d %s %s %s)" % (bits, sg, ea, eb), fa | fb, False)
+        return ("(addOverflowFlag %d %s %s %s)" % (bits, sg, ea, eb), fa | fb, True)
 
     def agg_components(self, obj):
         while obj["kind"] in ("ImplicitCastExpr", "ParenExpr", "MaterializeTemporaryExpr"):
@@ -427,6 +562,21 @@ class Fn:
                 return ("(%s %s %s)" % (a, op, c), fv, False)      # both operands non-negative: floor = truncation
             self.ub.append(("(!(%s == %s && %s == -1))" % (a, self.type_min(n), c), fv))
             return self.arith(n, "(%s %s %s)" % ("cdiv" if op == "/" else "cmod", a, c), fv)
+        if op in ("<<", ">>"):
+            # result type = promoted left operand; undefined unless 0 <= count < its width.  C++20 [expr.shift]: `<<` is the
+            # value congruent to a * 2^count modulo 2^N (signed operands included), `>>` is floor(a / 2^count)
+            bits, signed = self.ity(qtype(n))
+            self.ub.append(("(shiftOk %d %s)" % (bits, c), fc))
+            if op == ">>":
+                return ("(shr %s %s)" % (a, c), fv, False)
+            return ("(%s %d (shl %s %s))" % ("wrapS" if signed else "wrapU", bits, a, c), fv, False)
+        if op in ("&", "|", "^"):
+            if ba or bc:
+                raise Unsupported("bit operator on bool")
+            bits, signed = self.ity(qtype(n))
+            f = {"&": "band", "|": "bor", "^": "bxor"}[op]
+            # unsigned: both operands are non-negative representatives; signed: through the two's complement representation
+            return ("(%sS %d %s %s)" % (f, bits, a, c) if signed else "(%s %s %s)" % (f, a, c), fv, False)
         raise Unsupported("binop " + op)
 
     def type_min(self, n):
@@ -548,6 +698,11 @@ class Fn:
             # `if constexpr` in an instantiation: only the kept branch exists (the other one is absent or a NullStmt)
             kept = s["inner"][1:2] if s["inner"][0]["value"] == "true" else s["inner"][2:3]
             return self.body([x for x in kept if x["kind"] != "NullStmt"] + rest)
+        if k == "IfStmt" and s.get("hasInit"):      # v3: `if (init; cond)`: the init statement, then the plain `if`
+            plain = dict(s)
+            plain.pop("hasInit")
+            plain["inner"] = s["inner"][1:]
+            return self.body([s["inner"][0], plain] + rest)
         if k == "IfStmt":
             c, fc, _ = self.ex(s["inner"][0])
             th = s["inner"][1]
@@ -560,6 +715,8 @@ class Fn:
             return ("(if %s then %s else %s)" % (c, t[0], f[0]), fc | t[1] | f[1], t[2])
         if k == "CompoundStmt":
             return self.body(s.get("inner", []) + rest)
+        if k == "NullStmt":      # v3: `;` (an empty TETL_PRECONDITION(...) expansion)
+            return self.body(rest)
         raise Unsupported("statement " + k)
 
     def functor_parts(self):
@@ -601,6 +758,8 @@ class Fn:
                     raise Unsupported("duplicate parameter name " + nm)
                 params.append(nm)
                 self.env[nm] = (nm, {nm}, norm(qtype(c)) == "bool")
+                if norm(qtype(c)) == "bool":
+                    self.vtypes[nm] = "Bool"
                 self.counter[nm] = 1
             elif c["kind"] == "CompoundStmt":
                 comp = c
@@ -638,7 +797,8 @@ class Fn:
             ty = " × ".join(["Int"] * isb[1]) if isinstance(isb, tuple) else ("Bool" if isb else "Int")
             out.append("def %s %s : %s :=\n  %s" % (ln, " ".join("(%s : %s)" % (p, self.vtypes.get(p, "Int")) for p in ps), ty, e))
         lets = "".join("  let %s := %s %s\n" % (v, ln, " ".join(ps)) for v, ln, ps in self.order)
-        pl = " ".join("(%s : Int)" % p for p in params)
+        params += self.extra_params
+        pl = " ".join("(%s : %s)" % (p, "Bool" if self.vtypes.get(p) == "Bool" else "Int") for p in params)
         out.append("def %s %s :=\n%s  %s" % (self.name, pl, lets, res[0]))
         ubs = " &&\n    ".join(u for u, _ in self.ub) or "true"
         out.append("def %s_ub %s : Bool :=\n%s  %s" % (self.name, pl, lets, ubs))
@@ -737,16 +897,32 @@ JOBS += calendar_op_jobs()
 
 
 def translate(repo, out_path, jobs=None, tu="#include <etl/chrono.hpp>\n", namespace="Tetl.C11.Gen",
-              what="include/etl/_chrono", bool_fns=None):
+              what="include/etl/_chrono", bool_fns=None, whole_tu=False, clang_flags=(), imports=(), extra_prelude="",
+              externs=None, fn_opts=None):
     """Translate `jobs` (default: the C11 calendar kernels) into `out_path`.  Jobs whose callees are not translated
-    yet are retried after the others (dependency order is found by iteration)."""
+    yet are retried after the others (dependency order is found by iteration).
+    v3 (all optional, the defaults give the v2 behaviour): `whole_tu` = one clang run over the whole translation unit
+    (constants can be folded, callees are found by declaration id); `clang_flags` = further clang options; `imports` /
+    `extra_prelude` = further Lean imports / text after the prelude; `externs` = {registry key: Lean name} of functions that
+    are not translated (their Lean definitions `<name>` and `<name>_ub` come from the prelude); `fn_opts` = attributes
+    set on every `Fn` (symbolic, rep_classes)."""
     jobs = list(JOBS if jobs is None else jobs)
     if bool_fns:
         BOOL_FNS.update(bool_fns)
     reg = Registry()
+    for k_, v_ in (externs or {}).items():
+        reg.add(k_, v_)
     prelude = PRELUDE % {"repo": repo}
     prelude = prelude.replace("include/etl/_chrono", what).replace("Tetl.C11.Gen", namespace)
     prelude = prelude.replace("the C11 check", "the %s check" % namespace.split(".")[1])   # owning property: Tetl.<Cxx>.…
+    if imports:
+        prelude = prelude.replace("import Tetl.CSem\n", "import Tetl.CSem\n" + "".join("import %s\n" % i for i in imports))
+    prelude += extra_prelude
+    whole, consts = None, {}
+    if whole_tu:
+        whole = whole_ast(repo, tu, clang_flags)
+        index_vars(whole, consts)
+        reg.fns["#ids"] = {}
     chunks = {}
     errors = {}
     cache = {}
@@ -757,7 +933,7 @@ def translate(repo, out_path, jobs=None, tu="#include <etl/chrono.hpp>\n", names
         for job in pending:
             lean, filt, kind, pred, selfcls, keys = job
             if filt not in cache:
-                cache[filt] = ast_of(repo, tu, filt)
+                cache[filt] = ast_of(repo, tu, filt) if whole is None else filter_decls(whole, filt)
             cands = [d for d in cache[filt] if d.get("kind") == kind and pred(d) and d.get("name", lean) is not None
                      and any(c.get("kind") in ("CompoundStmt", "CXXCtorInitializer") for c in d.get("inner", []))]
             if kind.split()[0] in SPEC_KINDS:
@@ -766,11 +942,17 @@ def translate(repo, out_path, jobs=None, tu="#include <etl/chrono.hpp>\n", names
                 errors[lean] = "%s: declaration not found (filter %s)" % (lean, filt)
                 continue
             try:
-                chunks[lean] = Fn(lean, cands[0], reg, selfcls).run()
+                fn = Fn(lean, cands[0], reg, selfcls)
+                fn.consts = consts
+                for k_, v_ in (fn_opts or {}).items():
+                    setattr(fn, k_, v_)
+                chunks[lean] = fn.run()
                 order.append(lean)
                 errors.pop(lean, None)
                 for k in keys:
                     reg.add(k, lean)
+                if whole is not None and "id" in cands[0]:
+                    reg.fns["#ids"][cands[0]["id"]] = lean
             except Unsupported as e:
                 errors[lean] = "%s: unsupported: %s" % (lean, e)
                 if "untranslated" in str(e):
@@ -784,7 +966,48 @@ def translate(repo, out_path, jobs=None, tu="#include <etl/chrono.hpp>\n", names
     if old != text:
         open(out_path, "w").write(text)
     return {"file": out_path, "changed": old != text, "errors": list(errors.values()), "functions": [j[0] for j in jobs],
-            "translator": VERSION}
+            "translator": VERSION3 if whole_tu else VERSION}
+
+
+# ---- v3: the whole translation unit in one clang run
+def whole_ast(repo, tu_src, clang_flags=()):
+    p = subprocess.run([CLANG, "-std=c++20", "-fsyntax-only", "-I" + os.path.join(repo, "include")] + list(clang_flags)
+                       + ["-x", "c++", "-", "-Xclang", "-ast-dump=json"], input=tu_src, capture_output=True, text=True)
+    if p.returncode != 0:
+        raise Unsupported("clang failed: " + p.stderr[:600])
+    return json.loads(p.stdout)
+
+
+SCOPES = ("NamespaceDecl", "CXXRecordDecl", "ClassTemplateDecl", "ClassTemplateSpecializationDecl",
+          "ClassTemplatePartialSpecializationDecl", "LinkageSpecDecl")
+
+
+def filter_decls(root, filt):
+    """the declarations clang's `-ast-dump-filter=<filt>` would dump: those whose qualified name contains `filt`
+    (a matching declaration is not searched further)"""
+    out = []
+
+    def walk(n, qual):
+        for c in n.get("inner", []):
+            nm = c.get("name")
+            if not c.get("kind", "").endswith("Decl"):
+                continue
+            q = qual + [nm] if nm else qual
+            if nm and filt in "::".join(q):
+                out.append(c)
+                continue
+            if c["kind"] in SCOPES:
+                walk(c, q if c["kind"] != "LinkageSpecDecl" else qual)
+    walk(root, [])
+    return out
+
+
+def index_vars(n, out):
+    """id -> VarDecl, for every variable declaration of the translation unit"""
+    if n.get("kind") == "VarDecl" and "id" in n:
+        out[n["id"]] = n
+    for c in n.get("inner", []):
+        index_vars(c, out)
 
 
 def exact_name(name):
@@ -792,7 +1015,8 @@ def exact_name(name):
 
 
 # ---- specializations of templates (the TU instantiates them explicitly, so the AST is fully resolved)
-SPEC_KINDS = {"FunctionSpec": "FunctionDecl", "Functor": "ClassTemplateSpecializationDecl", "Lambda": "FunctionDecl"}
+SPEC_KINDS = {"FunctionSpec": "FunctionDecl", "Functor": "ClassTemplateSpecializationDecl", "Lambda": "FunctionDecl",
+              "MemberSpec": "ClassTemplateSpecializationDecl"}
 
 
 def targ_is(ty):
@@ -800,6 +1024,15 @@ def targ_is(ty):
     def pred(d):
         ta = [c for c in d.get("inner", []) if c["kind"] == "TemplateArgument"]
         return bool(ta) and ta[0].get("type", {}).get("qualType") == ty
+    return pred
+
+
+def targs_are(*tys):
+    """the template arguments of the specialization are exactly `tys` (types by spelling, values as decimal text)"""
+    def pred(d):
+        ta = [c for c in d.get("inner", []) if c["kind"] == "TemplateArgument"]
+        got = [c.get("type", {}).get("qualType") if "type" in c else str(c.get("value")) for c in ta]
+        return got == list(tys)
     return pred
 
 
@@ -817,6 +1050,19 @@ def spec_cands(docs, kind, pred):
     """candidates of a SPEC_KINDS job: specializations at top level (explicit instantiations) and inside their template
     declaration, defined ones only; "Lambda v" continues to the `operator()` of the closure bound to the local `v`"""
     akind = SPEC_KINDS[kind.split()[0]]
+    if kind.split()[0] == "MemberSpec":
+        # v3 "MemberSpec m": the specializations of the member function template `m` inside the specializations of a class
+        # template (implicit instantiations live inside the ClassTemplateDecl); `pred(class specialization, method)`
+        meth, classes, out = kind.split()[1], [], []
+        for d in docs:
+            classes += [c for c in [d] + d.get("inner", []) if c.get("kind") == akind]
+        for c in classes:
+            for ft in c.get("inner", []):
+                if ft.get("kind") == "FunctionTemplateDecl" and ft.get("name") == meth:
+                    out += [m for m in ft.get("inner", []) if m.get("kind") == "CXXMethodDecl" and pred(c, m)
+                            and any(x.get("kind") == "TemplateArgument" for x in m.get("inner", []))
+                            and any(x.get("kind") == "CompoundStmt" for x in m.get("inner", []))]
+        return out
     pool = list(docs)
     for d in docs:
         if d.get("kind", "").endswith("TemplateDecl"):
@@ -871,10 +1117,156 @@ TOINT_JOBS = (
        for s, t in TOINT_SIGNED + TOINT_UNSIGNED])
 
 
+# ---- C14: the straight-line kernels of <etl/bit.hpp>, <etl/numeric.hpp>, <etl/utility.hpp> for the builtin integer types
+# of the harness.  Loops stay hand-modelled: countl_zero and popcount are EXTERNS (Lean names declared in the prelude of the
+# generated file from Tetl/C14/GenExt.lean, which wraps the hand model); gcd, lcm, ipow, ilog2, countr_*, countl_one and
+# popcount_fallback are not translated at all.
+BITS_U = [("u8", "unsigned char"), ("u16", "unsigned short"), ("u32", "unsigned int"), ("u64", "unsigned long")]
+BITS_S = [("i8", "signed char"), ("i16", "short"), ("i32", "int"), ("i64", "long")]
+BITS_ALL = BITS_U + BITS_S
+BITS_WIDTH = {"u8": 8, "u16": 16, "u32": 32, "u64": 64, "i8": 8, "i16": 16, "i32": 32, "i64": 64}
+BITS_UNARY_U = ["bit_width", "bit_floor", "bit_ceil", "has_single_bit"]
+BITS_POS = ["test_bit", "set_bit", "reset_bit", "flip_bit"]
+BITS_RET = {"bit_width": "int", "has_single_bit": "bool", "test_bit": "bool"}
+BITS_CMP = ["cmp_equal", "cmp_not_equal", "cmp_less", "cmp_greater", "cmp_less_equal", "cmp_greater_equal"]
+
+
+def _bits_tu():
+    L = ["#include <etl/bit.hpp>", "#include <etl/numeric.hpp>", "#include <etl/utility.hpp>"]
+    for _, t in BITS_U:
+        for f in BITS_UNARY_U:
+            L.append("template auto etl::%s<%s>(%s) noexcept -> %s;" % (f, t, t, BITS_RET.get(f, t)))
+        for f in ("rotl", "rotr"):
+            L.append("template auto etl::%s<%s>(%s, int) noexcept -> %s;" % (f, t, t, t))
+        for f in BITS_POS:
+            L.append("template auto etl::%s<%s>(%s, %s) noexcept -> %s;" % (f, t, t, t, BITS_RET.get(f, t)))
+        L.append("template auto etl::set_bit<%s>(%s, %s, bool) -> %s;" % (t, t, t, t))
+    for _, t in BITS_ALL:
+        for f in ("midpoint", "add_sat", "div_sat"):
+            L.append("template auto etl::%s<%s>(%s, %s) noexcept -> %s;" % (f, t, t, t, t))
+        L.append("template auto etl::abs<%s>(%s) noexcept -> %s;" % (t, t, t))
+        for _, u in BITS_ALL:
+            for f in BITS_CMP:
+                L.append("template auto etl::%s<%s, %s>(%s, %s) noexcept -> bool;" % (f, t, u, t, u))
+            L.append("template auto etl::in_range<%s, %s>(%s) noexcept -> bool;" % (t, u, u))
+            L.append("template auto etl::saturate_cast<%s, %s>(%s) noexcept -> %s;" % (t, u, u, t))
+    return "\n".join(L) + "\n"
+
+
+BITS_TU = _bits_tu()
+BITS_EXTERNS = dict([("fn:countl_zero(%s)" % t, "countl_zero_" + s) for s, t in BITS_U]
+                    + [("fn:popcount(%s)" % t, "popcount_" + s) for s, t in BITS_U])
+BITS_PRELUDE = "".join(
+    "def countl_zero_%s (x : Int) : Int := Tetl.C14.GenExt.countlZero %d x\n"
+    "def countl_zero_%s_ub (x : Int) : Bool := Tetl.C14.GenExt.countlZeroOk %d x\n"
+    "def popcount_%s (x : Int) : Int := Tetl.C14.GenExt.popcount %d x\n"
+    "def popcount_%s_ub (x : Int) : Bool := Tetl.C14.GenExt.popcountOk %d x\n"
+    % (s, BITS_WIDTH[s], s, BITS_WIDTH[s], s, BITS_WIDTH[s], s, BITS_WIDTH[s]) for s, _ in BITS_U)
+
+
+def sig_q(*tys):
+    """parameter types by their full (desugared) spelling"""
+    def pred(d):
+        return [norm(qtype(c)) for c in d.get("inner", []) if c["kind"] == "ParmVarDecl"] == list(tys)
+    return pred
+
+
+def both(p, q):
+    return lambda d: p(d) and q(d)
+
+
+def _bits_jobs():
+    J = []
+    for s, t in BITS_U:
+        for f in BITS_UNARY_U:
+            J.append(("%s_%s" % (f, s), "etl::" + f, "FunctionSpec", targs_are(t), None, ["fn:%s(%s)" % (f, t)]))
+        for f in ("rotl", "rotr"):
+            J.append(("%s_%s" % (f, s), "etl::" + f, "FunctionSpec", targs_are(t), None, []))
+        for f in BITS_POS:
+            J.append(("%s_%s" % (f, s), "etl::" + f, "FunctionSpec", both(targs_are(t), sig_q(t, t)), None, []))
+        J.append(("set_bit_to_%s" % s, "etl::set_bit", "FunctionSpec", both(targs_are(t), sig_q(t, t, "bool")), None, []))
+    for s, t in (("u16", "unsigned short"), ("u32", "unsigned int"), ("u64", "unsigned long")):
+        J.append(("byteswap_fallback_%s" % s, "etl::detail::byteswap_fallback::operator()", "CXXMethodDecl", sig_q(t), None, []))
+    for s, t in BITS_ALL:
+        for f in ("midpoint", "add_sat", "div_sat"):
+            J.append(("%s_%s" % (f, s), "etl::" + f, "FunctionSpec", both(targs_are(t), sig_q(t, t)), None, []))
+        J.append(("abs_%s" % s, "etl::abs", "FunctionSpec", targs_are(t), None, []))
+    for s, t in BITS_ALL:
+        for s2, u in BITS_ALL:
+            for f in ("cmp_equal", "cmp_less"):
+                J.append(("%s_%s_%s" % (f, s, s2), "etl::" + f, "FunctionSpec", targs_are(t, u), None, ["fn:%s(%s,%s)" % (f, t, u)]))
+    for s, t in BITS_ALL:
+        for s2, u in BITS_ALL:
+            for f in ("cmp_not_equal", "cmp_greater"):
+                J.append(("%s_%s_%s" % (f, s, s2), "etl::" + f, "FunctionSpec", targs_are(t, u), None, ["fn:%s(%s,%s)" % (f, t, u)]))
+    for s, t in BITS_ALL:
+        for s2, u in BITS_ALL:
+            for f in ("cmp_less_equal", "cmp_greater_equal"):
+                J.append(("%s_%s_%s" % (f, s, s2), "etl::" + f, "FunctionSpec", targs_are(t, u), None, ["fn:%s(%s,%s)" % (f, t, u)]))
+    for s, t in BITS_ALL:
+        for s2, u in BITS_ALL:
+            J.append(("in_range_%s_%s" % (s, s2), "etl::in_range", "FunctionSpec", targs_are(t, u), None, []))
+            J.append(("saturate_cast_%s_%s" % (s, s2), "etl::saturate_cast", "FunctionSpec", targs_are(t, u), None, []))
+    return J
+
+
+BITS_JOBS = _bits_jobs()
+BITS_BOOL = set()
+
+
+# ---- C12: the four `duration_cast_impl<ToDuration, CF, CR, CF::num == 1, CF::den == 1>::cast` bodies for every ordered
+# pair of the harness' representation types.  The instantiations come from calls `duration_cast<To>(from)` in the TU with
+# periods that select the specialization; `CF::num` / `CF::den` are left SYMBOLIC (Lean parameters `num`, `den`), so one
+# generated function stands for every conversion factor of that shape.  CR = common_type_t<to_rep, Rep, intmax_t> = long.
+DUR_REPS = [("i16", "short"), ("i32", "int"), ("i64", "long"), ("u32", "unsigned int")]
+# shape -> (From period, To period, NumIsOne, DenIsOne)
+DUR_SHAPES = {"nd": ("etl::ratio<3, 1>", "etl::ratio<2, 1>", 0, 0), "d": ("etl::ratio<1, 1000>", "etl::ratio<1, 1>", 1, 0),
+              "n": ("etl::ratio<1, 1>", "etl::ratio<1, 1000>", 0, 1), "id": ("etl::ratio<1, 1>", "etl::ratio<1, 1>", 1, 1)}
+DURCAST_TU = "#include <etl/chrono.hpp>\nnamespace verif_inst {\nusing namespace etl::chrono;\n" + "".join(
+    "inline auto c_%s_%s_%s(duration<%s, %s> d) { return duration_cast<duration<%s, %s>>(d); }\n"
+    % (sh, ts, fs, ft, DUR_SHAPES[sh][0], tt, DUR_SHAPES[sh][1])
+    for sh in DUR_SHAPES for ts, tt in DUR_REPS for fs, ft in DUR_REPS) + "}\n"
+
+
+def durcast_pred(to_rep, from_rep, num1, den1):
+    def pred(c, m):
+        ca = [x for x in c.get("inner", []) if x["kind"] == "TemplateArgument"]
+        ma = [x for x in m.get("inner", []) if x["kind"] == "TemplateArgument"]
+        if len(ca) != 5 or len(ma) != 2:
+            return False
+        tq = ca[0].get("type", {}).get("qualType", "")
+        mt = re.match(r"(?:etl::chrono::)?duration<([^,<>]+)[,>]", tq)
+        return (bool(mt) and mt.group(1).strip() == to_rep and ca[2].get("type", {}).get("qualType") == "long"
+                and (ca[3].get("value") != 0) == bool(num1) and (ca[4].get("value") != 0) == bool(den1)      # `true` is dumped as -1
+                and ma[0].get("type", {}).get("qualType") == from_rep)
+    return pred
+
+
+DURCAST_JOBS = [("cast_%s_%s_%s" % (sh, ts, fs), "etl::chrono::detail::duration_cast_impl", "MemberSpec cast",
+                 durcast_pred(tt, ft, DUR_SHAPES[sh][2], DUR_SHAPES[sh][3]), None, [])
+                for sh in DUR_SHAPES for ts, tt in DUR_REPS for fs, ft in DUR_REPS]
+
+
+def translate_durcast(repo, out):
+    return translate(repo, out, DURCAST_JOBS, DURCAST_TU, "Tetl.C12.Gen", "include/etl/_chrono/duration_cast.hpp",
+                     whole_tu=True, imports=["Tetl.CSemBits"],
+                     fn_opts={"symbolic": {"num": "num", "den": "den"}, "rep_classes": True})
+
+
+def translate_bits(repo, out):
+    return translate(repo, out, BITS_JOBS, BITS_TU, "Tetl.C14.Gen", "include/etl/_bit, _numeric, _utility", whole_tu=True,
+                     clang_flags=["-Wno-c++11-narrowing"], imports=["Tetl.CSemBits", "Tetl.C14.GenExt"],
+                     extra_prelude=BITS_PRELUDE, externs=BITS_EXTERNS)
+
+
 if __name__ == "__main__":
     repo = sys.argv[1] if len(sys.argv) > 1 else "/repo"
     out = sys.argv[2] if len(sys.argv) > 2 else "/dev/stdout"
-    if len(sys.argv) > 3 and sys.argv[3] == "toint":
+    if len(sys.argv) > 3 and sys.argv[3] == "bits":
+        info = translate_bits(repo, out)
+    elif len(sys.argv) > 3 and sys.argv[3] == "durcast":
+        info = translate_durcast(repo, out)
+    elif len(sys.argv) > 3 and sys.argv[3] == "toint":
         info = translate(repo, out, TOINT_JOBS, TOINT_TU, "Tetl.C10.Gen", "include/etl/_strings/to_integer.hpp")
     elif len(sys.argv) > 3 and sys.argv[3] == "cwctype":
         info = translate(repo, out, CWCTYPE_JOBS, "#include <etl/cwctype.hpp>\n", "Tetl.C18.GenW", "include/etl/_cwctype")
